@@ -1,7 +1,8 @@
 (* Fat.v: the byte-level FAT stores of src/table.rs (Fat12/Fat16/Fat32 get/set) on top of the FAT
    DiskSlice of src/fs.rs (fat_slice: begin, size of one table, number of mirrored copies).
    A store is an image plus the slice geometry; reads come from the first (or active) copy, writes go to
-   every mirrored copy. *)
+   every mirrored copy.  The u32 offset arithmetic of get_raw/set_raw (cluster * 2, cluster * 4,
+   cluster + cluster / 2) panics on overflow as in a debug build. *)
 From FatVerif Require Import Model.Base Model.Slot Model.Table Spec.Image.
 Open Scope N_scope.
 
@@ -38,10 +39,13 @@ Definition classify16 (v : N) : fatv :=
 Definition raw16 (v : fatv) : N :=
   match v with Free => 0 | Bad => 65527 | Eoc => 65535 | Data n => n end.
 
+(* [cluster * 2] is a u32 multiplication: a debug build panics on overflow (cluster >= 2^31) *)
 Definition get16 (s : fstore) (c : N) : res fatv :=
-  do bs <- slice_read s (2 * c) 2; Ok (classify16 (le_decode bs)).
+  do off <- u32_mul c 2;
+  do bs <- slice_read s off 2; Ok (classify16 (le_decode bs)).
 Definition set16 (s : fstore) (c : N) (v : fatv) : res fstore :=
-  slice_write s (2 * c) (u16_bytes (raw16 v mod 65536)).
+  do off <- u32_mul c 2;
+  slice_write s off (u16_bytes (raw16 v mod 65536)).
 
 (* ---------------------------------------------------------------- FAT32 *)
 Definition special32 (c : N) : bool := (268435447 <=? c) && (c <=? 268435455).   (* 0x0FFFFFF7 ..= 0x0FFFFFFF *)
@@ -54,13 +58,16 @@ Definition classify32 (c v : N) : fatv :=
 Definition raw32 (v : fatv) : N :=
   match v with Free => 0 | Bad => 268435447 | Eoc => 268435455 | Data n => n end.
 
+(* [cluster * 4] is a u32 multiplication (debug build: panic for cluster >= 2^30) *)
 Definition get32 (s : fstore) (c : N) : res fatv :=
-  do bs <- slice_read s (4 * c) 4; Ok (classify32 c (le_decode bs mod 268435456)).
+  do off <- u32_mul c 4;
+  do bs <- slice_read s off 4; Ok (classify32 c (le_decode bs mod 268435456)).
 Definition set32 (s : fstore) (c : N) (v : fatv) : res fstore :=
-  do bs <- slice_read s (4 * c) 4;
+  do off <- u32_mul c 4;
+  do bs <- slice_read s off 4;
   let old_reserved := (le_decode bs / 268435456) * 268435456 in
   if (match v with Free => true | _ => false end) && special32 c then Panic
-  else slice_write s (4 * c) (u32_bytes (N.lor (raw32 v mod two32) old_reserved)).
+  else slice_write s off (u32_bytes (N.lor (raw32 v mod two32) old_reserved)).
 
 (* ---------------------------------------------------------------- FAT12 *)
 Definition classify12 (v : N) : fatv :=
@@ -68,20 +75,23 @@ Definition classify12 (v : N) : fatv :=
 Definition raw12 (v : fatv) : N :=
   match v with Free => 0 | Bad => 4087 | Eoc => 4095 | Data n => n end.
 
+(* [cluster + cluster / 2] is a u32 addition (debug build: panic on overflow) *)
 Definition get12_raw (s : fstore) (c : N) : res N :=
-  do bs <- slice_read s (c + c / 2) 2;
+  do off <- u32_add c (c / 2);
+  do bs <- slice_read s off 2;
   let w := le_decode bs in
   Ok (if c mod 2 =? 0 then w mod 4096 else w / 16).
 Definition get12 (s : fstore) (c : N) : res fatv := do v <- get12_raw s c; Ok (classify12 v).
 
 Definition set12 (s : fstore) (c : N) (v : fatv) : res fstore :=
-  do bs <- slice_read s (c + c / 2) 2;
+  do off <- u32_add c (c / 2);
+  do bs <- slice_read s off 2;
   let old := le_decode bs in
   let raw := raw12 v mod 65536 in                      (* raw_val as u16 *)
   let packed :=
     if c mod 2 =? 0 then N.lor ((old / 4096) * 4096) raw                 (* (old & 0xF000) | raw *)
     else N.lor (old mod 16) ((raw * 16) mod 65536) in                    (* (old & 0x000F) | (raw << 4) *)
-  slice_write s (c + c / 2) (u16_bytes packed).
+  slice_write s off (u16_bytes packed).
 
 (* dispatch on the FAT width *)
 Inductive fat_type := Fat12 | Fat16 | Fat32.
